@@ -83,6 +83,8 @@ pub struct RefHost {
     pub root: FileId,
     /// text of every file id the analysis knows (root + everything resolved)
     pub texts: BTreeMap<PathBuf, String>,
+    /// line tables of the independent mapper, built once per (file, text)
+    pub maps: std::cell::RefCell<BTreeMap<FileId, std::rc::Rc<RefMap>>>,
 }
 
 impl RefHost {
@@ -110,7 +112,7 @@ impl RefHost {
             all.insert(p.clone(), t.clone());
         }
         all.insert(root.to_path_buf(), root_text.to_string());
-        RefHost { host, fs, root: root_id, texts: all }
+        RefHost { host, fs, root: root_id, texts: all, maps: Default::default() }
     }
 
     pub fn fresh(texts: &BTreeMap<PathBuf, String>, root: &Path, root_text: &str) -> RefHost {
@@ -140,20 +142,35 @@ impl RefHost {
         self.texts.get(&lexical(self.fs.path_of(id))).map(|s| s.as_str()).unwrap_or("")
     }
 
+    /// Line table of a file. Whoever replaces `texts` must clear `maps` (see `set_texts`).
+    fn map_of(&self, file: FileId) -> std::rc::Rc<RefMap> {
+        if let Some(m) = self.maps.borrow().get(&file) {
+            return m.clone();
+        }
+        let m = std::rc::Rc::new(RefMap::new(self.text_of(file)));
+        self.maps.borrow_mut().insert(file, m.clone());
+        m
+    }
+
+    pub fn set_texts(&mut self, texts: BTreeMap<PathBuf, String>) {
+        self.texts = texts;
+        self.maps.borrow_mut().clear();
+    }
+
     fn lsp_range(&self, file: FileId, range: TextRange) -> String {
-        let m = RefMap::new(self.text_of(file));
+        let m = self.map_of(file);
         let (sl, sc) = m.position(usize::from(range.start()));
         let (el, ec) = m.position(usize::from(range.end()));
         format!("{sl}:{sc}-{el}:{ec}")
     }
 
     fn lsp_pos(&self, file: FileId, pos: TextSize) -> String {
-        let (l, c) = RefMap::new(self.text_of(file)).position(usize::from(pos));
+        let (l, c) = self.map_of(file).position(usize::from(pos));
         format!("{l}:{c}")
     }
 
     fn lsp_lines(&self, file: FileId, range: TextRange) -> String {
-        let m = RefMap::new(self.text_of(file));
+        let m = self.map_of(file);
         format!("{}-{}", m.position(usize::from(range.start())).0, m.position(usize::from(range.end())).0)
     }
 
